@@ -12,7 +12,7 @@ typedef double R;
 #include "ObjSense.inc"
 
 R* gp_max; R* gp_sum; R* gp_scratch; int g_scratch_n, g_scratch_used;
-int g_k, g_n; R v_a, v_b, v_x, v_act; int v_st;
+int g_k, g_n; int v_st, g_sense; R* gp_a; R* gp_b; R* gp_x; R v_dlo, v_dup;
 int g_cpa_calls, g_cpa_unscaled, g_cpa_args_ok, g_sync_calls;
 #define SUMFACT
 #define NOTNAN(x) ((x) == (x))
@@ -27,9 +27,9 @@ int g_cpa_calls, g_cpa_unscaled, g_cpa_args_ok, g_sync_calls;
 #endif
 /* the value the check is about at the ghost index */
 #ifdef KIND_ROW
-#define VAL v_act            /* activity[g_k] as produced by computePrimalActivity (stub: arbitrary, not NaN) */
+#define VAL scratch[g_k]     /* activity[g_k] as produced by computePrimalActivity (stub: arbitrary, not NaN) */
 #else
-#define VAL v_x
+#define VAL x[g_k]
 #endif
 
 /* sign table for duals (rows) and reduced costs (columns), derived from LP duality, not from the code:
@@ -54,35 +54,36 @@ __CPROVER_requires(__CPROVER_is_fresh(x, n * sizeof(R)) && __CPROVER_is_fresh(sc
 __CPROVER_requires(__CPROVER_is_fresh(st_solver, n * sizeof(int)) && __CPROVER_is_fresh(st_stored, n * sizeof(int)))
 __CPROVER_requires(__CPROVER_is_fresh(maxviol, sizeof(R)) && __CPROVER_is_fresh(sumviol, sizeof(R)))
 __CPROVER_requires(objsense == OBJSENSE_MINIMIZE || objsense == OBJSENSE_MAXIMIZE)
-__CPROVER_requires(0 <= g_k && g_k < n && v_a == a[g_k] && v_b == b[g_k] && v_x == x[g_k])
+__CPROVER_requires(0 <= g_k && g_k < n && g_sense == objsense)
 __CPROVER_requires(v_st == (isRealLPLoaded ? st_solver[g_k] : st_stored[g_k]))
 /* what the code assumes about its floating-point inputs: bounds/sides may be +-inf but not NaN, solution values are
    finite (inf - inf would be NaN and every comparison with NaN is false) */
-__CPROVER_requires(NOTNAN(v_a) && NOTNAN(v_b) && FINITE(v_x))
-__CPROVER_assigns(gp_max, gp_sum, gp_scratch, g_scratch_n, g_scratch_used, g_cpa_calls, g_cpa_unscaled, g_cpa_args_ok, g_sync_calls, v_act)
+__CPROVER_requires(NOTNAN(a[g_k]) && NOTNAN(b[g_k]) && FINITE(x[g_k]))
+__CPROVER_assigns(gp_max, gp_sum, gp_scratch, g_scratch_n, g_scratch_used, g_cpa_calls, g_cpa_unscaled, g_cpa_args_ok, g_sync_calls, gp_a, gp_b, gp_x, v_dlo, v_dup)
 __CPROVER_assigns(__CPROVER_object_whole(scratch))          /* the function's own local vector */
 __CPROVER_assigns(SUCCESS: *maxviol, *sumviol)                /* frame: on failure nothing is written */
 __CPROVER_ensures((__CPROVER_return_value != 0) == (SUCCESS))
 __CPROVER_ensures(__CPROVER_return_value ==> (*maxviol >= 0.0 SUMFACT))
 #if defined(KIND_BOUND) || defined(KIND_ROW)
-__CPROVER_ensures(__CPROVER_return_value ==> (v_a - VAL <= *maxviol && VAL - v_b <= *maxviol))
+/* v_dlo, v_dup are set by the wrapper to exactly these two differences (second clause), so that the first clause reads
+   lower[g] - x[g] <= maxviol && x[g] - upper[g] <= maxviol */
+__CPROVER_ensures(__CPROVER_return_value ==> (v_dlo <= *maxviol && v_dup <= *maxviol))
+__CPROVER_ensures(__CPROVER_return_value ==> (v_dlo == a[g_k] - VAL && v_dup == VAL - b[g_k]))
 #else
-__CPROVER_ensures(__CPROVER_return_value ==> SIGN_OK(v_st, objsense, v_x, *maxviol))
+__CPROVER_ensures(__CPROVER_return_value ==> SIGN_OK(v_st, objsense, x[g_k], *maxviol))
 #endif
 #ifdef KIND_ROW
 /* the activity is the one computed for the stored primal vector, in the unscaled space */
 __CPROVER_ensures(__CPROVER_return_value ==> (g_cpa_calls == 1 && g_cpa_unscaled == 1 && g_cpa_args_ok == 1))
 #endif
 __CPROVER_ensures(__CPROVER_return_value ==> g_sync_calls == 1)
-__CPROVER_ensures(x[g_k] == v_x && a[g_k] == v_a && b[g_k] == v_b)
 ;
 
 void h_viol(void)
 {
    R* a; R* b; R* x; R* scratch; const int* st_solver; const int* st_stored; int n;
    int hasSolReal, realFeas, hasSolRational, ratFeas, hasBasis, isRealLPLoaded, objsense; R* maxviol; R* sumviol;
-   g_k = nondet_int(); g_n = nondet_int(); v_a = nondet_double(); v_b = nondet_double(); v_x = nondet_double();
-   v_act = nondet_double(); v_st = nondet_int();
+   g_k = nondet_int(); g_n = nondet_int(); v_st = nondet_int(); g_sense = nondet_int();
    w_viol(a, b, x, scratch, st_solver, st_stored, n, hasSolReal, realFeas, hasSolRational, ratFeas,
           hasBasis, isRealLPLoaded, objsense, maxviol, sumviol);
    CANARY();
